@@ -20,6 +20,9 @@ type envModel struct {
 	files    map[string]*memFile
 	diag     []string
 	stdout   []string
+	capture  bool    // a vrt.RunCLI run is in progress: format printed text in full
+	cliOut   []value // the captured text pieces (string or *symString)
+	dirs     map[string]bool
 	onceDone map[*value]bool
 	syncMaps map[*value]*omap
 	args     []string
@@ -40,6 +43,7 @@ func (e *envModel) resetPath() {
 	e.files = map[string]*memFile{}
 	e.diag = nil
 	e.stdout = nil
+	e.capture, e.cliOut, e.dirs = false, nil, nil
 	e.fsFail = map[string]bool{}
 	e.nowCount = 0
 }
@@ -390,24 +394,50 @@ func init() {
 	I["fmt.Errorf"] = func(fr *frame, args []value) (value, bool) {
 		return fr.i.mkError(fr.sprintf(args[0], variadic(args[1]))), true
 	}
+	// While a command-line run is being captured (vrt.RunCLI) the text is
+	// formatted in full; otherwise only the format string is recorded.
 	I["fmt.Printf"] = func(fr *frame, args []value) (value, bool) {
 		fr.i.env.stdout = append(fr.i.env.stdout, strOrDebug(args[0]))
+		if fr.i.env.capture {
+			fr.i.env.cliOut = append(fr.i.env.cliOut, fr.sprintf(args[0], variadic(args[1])))
+		}
 		return tuple{0, nilError()}, true
 	}
 	I["fmt.Println"] = func(fr *frame, args []value) (value, bool) {
 		fr.i.env.stdout = append(fr.i.env.stdout, strOrDebug(fr.sprint(variadic(args[0]), false)))
+		if fr.i.env.capture {
+			fr.i.env.cliOut = append(fr.i.env.cliOut, fr.sprint(variadic(args[0]), true))
+		}
 		return tuple{0, nilError()}, true
 	}
-	I["fmt.Print"] = I["fmt.Println"]
+	I["fmt.Print"] = func(fr *frame, args []value) (value, bool) {
+		fr.i.env.stdout = append(fr.i.env.stdout, strOrDebug(fr.sprint(variadic(args[0]), false)))
+		if fr.i.env.capture {
+			fr.i.env.cliOut = append(fr.i.env.cliOut, fr.sprint(variadic(args[0]), false))
+		}
+		return tuple{0, nilError()}, true
+	}
 	I["fmt.Fprintf"] = func(fr *frame, args []value) (value, bool) {
 		fr.i.env.stdout = append(fr.i.env.stdout, strOrDebug(args[1]))
+		if fr.i.env.capture {
+			fr.i.env.cliOut = append(fr.i.env.cliOut, fr.sprintf(args[1], variadic(args[2])))
+		}
 		return tuple{0, nilError()}, true
 	}
 	I["fmt.Fprintln"] = func(fr *frame, args []value) (value, bool) {
 		fr.i.env.stdout = append(fr.i.env.stdout, strOrDebug(fr.sprint(variadic(args[1]), false)))
+		if fr.i.env.capture {
+			fr.i.env.cliOut = append(fr.i.env.cliOut, fr.sprint(variadic(args[1]), true))
+		}
 		return tuple{0, nilError()}, true
 	}
-	I["fmt.Fprint"] = I["fmt.Fprintln"]
+	I["fmt.Fprint"] = func(fr *frame, args []value) (value, bool) {
+		fr.i.env.stdout = append(fr.i.env.stdout, strOrDebug(fr.sprint(variadic(args[1]), false)))
+		if fr.i.env.capture {
+			fr.i.env.cliOut = append(fr.i.env.cliOut, fr.sprint(variadic(args[1]), false))
+		}
+		return tuple{0, nilError()}, true
+	}
 
 	// ---- log: formatting stubbed; the format string is recorded ----
 	logf := func(fr *frame, args []value) (value, bool) {
